@@ -21,10 +21,14 @@ def c07(ctx: Ctx):
     else:
         ctx.tlc("MC_C07", "MC_C07.cfg", label="D security automaton: verdict = SecOK, calls = ExpectedCalls")
         ctx.tlc("MC_C07", "MC_C07_abort.cfg", expect_violation=True, label="D variant 'undeclared scheme aborts the list' breaks the contract")
+        ctx.tlc("MC_C07O", "MC_C07O_asbuilt.cfg", label="D orchestration: security, path-level minus overridden, operation-level, body; fail-first / collect = FailingParts")
         ctx.tlc("MC_C07H", "MC_C07H_stateless.cfg", label="D history: parameters checked = Effective(route and document at the time of the call), <=3 validate/edit steps")
-        ctx.tlc("MC_C07H", "MC_C07H_memoRoute_noedit.cfg", label="D history variant 'memoRoute' is indistinguishable while the document is never edited")
-        for design, by in (("memoOp", "an alias path item sharing the Operation (no edit)"), ("memoPathItem", "a sibling operation (no edit)"), ("memoRoute", "an edit")):
-            ctx.tlc("MC_C07H", "MC_C07H_%s.cfg" % design, expect_violation=True, label="D history variant '%s' is refuted by %s" % (design, by))
+        if ctx.tier == "thorough":   # the refuted designs (model drift guards): each must still have its counterexample
+            for v in ("exclQueryOpOnly", "bodyPresenceFirst", "multiEarlyReturn", "overrideByName"):
+                ctx.tlc("MC_C07O", "MC_C07O_%s.cfg" % v, expect_violation=True, label="D orchestration variant '%s' breaks the contract" % v)
+            ctx.tlc("MC_C07H", "MC_C07H_memoRoute_noedit.cfg", label="D history variant 'memoRoute' is indistinguishable while the document is never edited")
+            for design, by in (("memoOp", "an alias path item sharing the Operation (no edit)"), ("memoPathItem", "a sibling operation (no edit)"), ("memoRoute", "an edit")):
+                ctx.tlc("MC_C07H", "MC_C07H_%s.cfg" % design, expect_violation=True, label="D history variant '%s' is refuted by %s" % (design, by))
         ctx.tlc("Gen_C07", "Gen_C07_%s.cfg" % ctx.tier, label="F generate cases")
         n = ctx.unquote(ctx.spec("cases.ndjson"), cases)
         log("[gen] %d cases" % n)
